@@ -190,7 +190,7 @@ func RunSignalScript(kind string, progs []string) (*SignalResult, error) {
 }
 
 // RunChildOfDone: children of a scope that is already done (or becomes done meanwhile).
-func RunChildOfDone(how string, racers int) (panics []string, parentClosed bool) {
+func RunChildOfDone(how string, racers int, endDelay time.Duration) (panics []string, parentClosed bool) {
 	var pmu sync.Mutex
 	guard := func(what string, f func()) {
 		defer func() {
@@ -240,7 +240,10 @@ func RunChildOfDone(how string, racers int) (panics []string, parentClosed bool)
 				}
 			}(i)
 		}
-		time.Sleep(50 * time.Microsecond)
+		// the parent ends somewhere inside the creators' activity: the delay is varied by the caller, and a short
+		// busy wait (not a timer, whose resolution is coarser than a child creation) places it
+		for t0 := time.Now(); time.Since(t0) < endDelay; {
+		}
 		guard("end parent", end)
 		wg.Wait()
 	}
